@@ -199,11 +199,12 @@ def main(tier):
         jobs += [(job_contain_ieee, (8, w, 1, 3, yi)) for w in ('kmx', 'kmy') for yi in (0, 3, 7)]
         jobs += [(job_centroid, (10, it, ax, X, Y, fr)) for it in (2, 4) for ax in (0, 1) for (X, Y) in ((4, 5), (2, 4)) for fr in (0, 1)]
         jobs += [(job_centroid, (10, 3, ax, 5, 5, fr)) for ax in (0, 1) for fr in (0, 1)]
-        import c19
-        jobs += [(c19.job_queue, (8, 4, 2))]      # modulated RF: the field a tracked particle sees after apply() is the one the step applied (built from the entry just consumed)
+        import c19, c17
+        jobs += [(c19.job_queue, (8, 4, 2))]
+        jobs += [(c17.job_tracks_index, (4, 1, 8, 2))]      # the stored track: a coordinate anywhere in [0, n-1] - the border values the maps clamp to included - is converted to physical units inside the axis arrays      # modulated RF: the field a tracked particle sees after apply() is the one the step applied (built from the entry just consumed)
     else:
-        import c19
-        jobs = [(c19.job_queue, (8, 4, 3)), (c19.job_queue, (9, 2, 2))]
+        import c19, c17
+        jobs = [(c19.job_queue, (8, 4, 3)), (c19.job_queue, (9, 2, 2)), (c17.job_tracks_index, (4, 1, 8, 2)), (c17.job_tracks_index, (5, 2, 12, 2))]
         jobs += [(job_contain_kick, (n, nb, it, ax)) for n, nb in ((8, 1), (6, 2), (9, 1), (12, 1)) for it in (1, 2, 3, 4) for ax in (0, 1)]
         jobs += [(job_contain_fp, (n, nb, ft, dt)) for n, nb in ((8, 1), (9, 1), (6, 2)) for ft in (0, 1, 2, 3) for dt in (3, 4)]
         jobs += [(job_stochastic_model, (n, dt)) for n in (8, 9, 12) for dt in (3, 4)]
